@@ -193,9 +193,14 @@ func (db *DB) search(key types.Key) ([]byte, bool) {
 	return nil, false
 }
 
-func (db *DB) rawset(entry types.Entry) {
-	db.memtable.set(entry)
+// rawsetBatch applies all writes of one transaction to the same memtable (and thus the same
+// wal file, in one append); the memtable is rotated afterwards if it has grown too large
+func (db *DB) rawsetBatch(entries []types.Entry) {
+	db.memtable.setBatch(entries)
+	db.rotateIfFull()
+}
 
+func (db *DB) rotateIfFull() {
 	if db.memtable.size() >= db.config.MemtableByteThreshold {
 		db.memtable.freeze()
 		imt := db.memtable
